@@ -164,6 +164,25 @@ fn attacks(rng: &mut Rng, thorough: bool) -> Vec<Attack> {
             out.push(Attack { name: "flood-after-idat", file: wrap(vec![], chunks) });
         }
     }
+    // 4b. iTXt floods with the bulk in each of the variable-length fields that are retained (language tag, translated keyword,
+    //     uncompressed text): whatever is kept has to be paid for, not only the text field
+    for (name, field) in [("flood-iTXt-language-tag", 0usize), ("flood-iTXt-translated-keyword", 1), ("flood-iTXt-plain-text", 2)] {
+        let count = n / 6;
+        let chunks: Vec<RawChunk> = (0..count)
+            .map(|_| {
+                let bulk: Vec<u8> = (0..2000).map(|_| rng.range(b'a' as u64, b'z' as u64) as u8).collect();
+                let mut d = b"k\0\0\0".to_vec();
+                if field == 0 { d.extend(&bulk); }
+                d.push(0);
+                if field == 1 { d.extend(&bulk); }
+                d.push(0);
+                if field == 2 { d.extend(&bulk); }
+                RawChunk::new(b"iTXt", d)
+            })
+            .collect();
+        out.push(Attack { name, file: wrap(chunks.clone(), vec![]) });
+        out.push(Attack { name: "flood-after-idat", file: wrap(vec![], chunks) });
+    }
     // 5. ancillary chunks larger than the chunk buffer under small limits
     for size in [40_000usize, 100_000, 1_000_000, 5_000_000] {
         for ty in [*b"prVt", *b"eXIf", *b"tEXt", *b"PLTE"] {
